@@ -359,6 +359,17 @@ theorem workflow_at_most_once {V} (ops : ValOps V) (r : Runner V) (wf : DagWF r)
   runEager_at_most_once ops r wf pick x k
 
 open EinoV.Engine.DagRun in
+/-- **workflow_starts_are_justified.** The same for the eager loop of Workflows, whatever the
+    completion order: every submitted batch is justified by the outputs of tasks submitted in
+    earlier batches (a superset of the completions that had happened), and the result is END's
+    justified input. -/
+theorem workflow_starts_are_justified {V} (ops : ValOps V) (r : Runner V) (wf : DagWF r) (pick : Pick V) (x : V) :
+    JustTr ops r x (runEager ops r pick x).batches.reverse ∧
+    (∀ v, (runEager ops r pick x).result = .ok v →
+      Justified ops r (histOf r x (runEager ops r pick x).batches.reverse) END v) :=
+  runEager_justified ops r wf pick x
+
+open EinoV.Engine.DagRun in
 /-- **compiled_workflow_declares_predecessors.** Every compiled Workflow lists each node as a
     control or data predecessor of each of its successors (clause `succ` of `DagWF`). -/
 theorem compiled_workflow_declares_predecessors {V} (ops : ValOps V) (w : WorkflowDef V) :
